@@ -14,6 +14,13 @@ need the unit's default category to resolve; the category-only form needs the ca
 its own default unit; `eval(repr(s))` needs unit and category to be free of quotes, backslashes and
 line breaks.  Table part: the generated `decide +kernel` theorems show these three hypotheses for
 every row of the default (POSC) database that the translator read from /repo's current source.
+
+Quantity-first forms: `Cls(q, x)` and `Cls.CreateWithQuantity(q, x)` compute `create db cls q x` for
+EVERY quantity `q` — with an unknown-unit caption, derived, empty — and the object holds exactly `q`;
+`==` compares the caption; `ObtainQuantity(u, c, caption)` / `GetUnknownQuantity(caption)` /
+`Quantity(c, u, caption)` carry the caption.  Histories on a private database: questions and (failed)
+constructions never change the state, every answer is a function of the registry the registrations
+built, a category or a unit registered late is found, and the forms agree in every reachable state.
 -/
 import Barril.Proofs.CtorLemmas
 import Barril.Gen.ThmDefcatPosc
@@ -652,6 +659,339 @@ theorem posc_repr_roundtrip (c u : Sym) (f : Option Rat) (q : Qty) (v : Rat)
     ∧ Obj.eq ⟨q, .scalar v⟩ ⟨q, .scalar v⟩ = .ok true := by
   obtain ⟨⟨ci, hci, hcn⟩, ⟨r, hr, hrs⟩⟩ := newQuantity_rows hq
   exact repr_roundtrip v hq (hrs ▸ posc_no_quote_chars.1 r hr) (hcn ▸ posc_no_quote_chars.2 ci hci)
+
+/-! ### the forms that are handed a Quantity: every quantity, caption included -/
+
+/-- **`Cls(q, x)` = `Cls.CreateWithQuantity(q, x)` = `Cls.CreateWithQuantity(q, value=x)` = create(q, x)
+for EVERY quantity `q`** — simple with or without unknown-unit caption, derived, empty — every class
+and every value argument but `None` (equal results, errors included); for FixedArray with the
+dimension given positionally, by keyword, or left to `len(x)` -/
+theorem quantity_first_agrees (db : Db) (q : Qty) (x : PyVal) (kw : Bool) (hx : x.isNone = false) :
+    (∀ cls : Cls, construct db cls (.qty q) x .none = create db cls q x)
+    ∧ createWithQuantity db .scalar q x kw none = create db .scalar q x
+    ∧ createWithQuantity db .fraction q x kw none = create db .fraction q x
+    ∧ createWithQuantity db .array q x kw none = create db .array q x
+    ∧ (∀ d d' : Int, createWithQuantity db (.fixed d') q x kw (some d) = create db (.fixed d) q x)
+    ∧ (∀ d d' : Int, pyLen x = .ok d → createWithQuantity db (.fixed d') q x kw none = create db (.fixed d) q x) := by
+  refine ⟨fun cls => ?_, createWithQuantity_agrees db q x kw hx⟩
+  rw [construct_eq db cls _ _ _ (fun _ => rfl), create_eq, abstractInit_quantity_first, initQuantity_given db cls q hx]
+
+/-- **the object holds exactly the quantity it was built from** (category, unit, composing map and
+caption): whatever `Cls(q, x)` or `Cls.CreateWithQuantity(q, x)` builds has `GetQuantity() = q` -/
+theorem created_object_holds_quantity (db : Db) (cls : Cls) (q : Qty) (x : PyVal) (kw : Bool) (dimKw : Option Int)
+    (o : Obj) :
+    (create db cls q x = .ok o → o.q = q)
+    ∧ (construct db cls (.qty q) x .none = .ok o → x.isNone = false → o.q = q)
+    ∧ (createWithQuantity db cls q x kw dimKw = .ok o → x.isNone = false → o.q = q) := by
+  have hc : ∀ cls' : Cls, create db cls' q x = .ok o → o.q = q := fun cls' h => by
+    rw [create_eq] at h; exact internalCreate_q (dimGuard_ok h)
+  refine ⟨hc cls, fun h hx => ?_, fun h hx => ?_⟩
+  · rw [(quantity_first_agrees db q x kw hx).1 cls] at h; exact hc cls h
+  · have hcw := createWithQuantity_agrees db q x kw hx
+    cases cls with
+    | scalar =>
+      cases dimKw with
+      | none => rw [hcw.1] at h; exact hc _ h
+      | some d => simp [createWithQuantity] at h
+    | fraction =>
+      cases dimKw with
+      | none => rw [hcw.2.1] at h; exact hc _ h
+      | some d => simp [createWithQuantity] at h
+    | array =>
+      cases dimKw with
+      | none => rw [hcw.2.2.1] at h; exact hc _ h
+      | some d => simp [createWithQuantity] at h
+    | fixed d' =>
+      cases dimKw with
+      | some d => rw [hcw.2.2.2.1 d d'] at h; exact hc _ h
+      | none =>
+        -- the dimension is `len(x)`; when that fails nothing is built
+        cases hl : pyLen x with
+        | ok d => rw [hcw.2.2.2.2 d d' hl] at h; exact hc _ h
+        | error e =>
+          cases kw <;> simp [createWithQuantity, fixedInternal, fixedDimension, pickValues_left hx,
+            pickValues_right hx, hl] at h
+
+/-- **the caption is part of an object's identity**: `a == b` is `True` only when the two quantities
+have the same composing map and the same unknown-unit caption -/
+theorem eq_needs_same_caption (a b : Obj) (h : Obj.eq a b = .ok true) :
+    a.q.caption = b.q.caption ∧ a.q.items = b.q.items := by
+  have hp := objEq_pyEq h
+  refine ⟨pyEq_caption hp, ?_⟩
+  simp only [Qty.pyEq, Bool.and_eq_true, beq_iff_eq] at hp
+  exact hp.1
+
+/-- an object built on a quantity is never `==` to the object built on the same quantity with another
+caption (Scalar shown; the other classes compare the quantities the same way) -/
+theorem other_caption_other_object (q : Qty) (cap : Sym) (v w : Rat) (h : cap ≠ q.caption) :
+    Obj.eq ⟨q, .scalar v⟩ ⟨q.withCaption cap, .scalar w⟩ = .ok false := by
+  have : (q.caption == cap) = false := by simpa using fun e => h e.symm
+  simp [Obj.eq, Qty.pyEq, Qty.withCaption, this]
+
+/-- **`ObtainQuantity(unit, category, caption)`, `ObtainQuantity(OrderedDict(…), None, caption)` and
+`units.GetUnknownQuantity(caption)` return a quantity carrying that caption** (`None` is stored as
+`""`), so by the two theorems above `X(q, v)` and `X.CreateWithQuantity(q, v)` both carry it -/
+theorem obtained_quantity_carries_caption (db : Db) (unit : PyVal) (category : Atom) (cap : Sym) (f : Option Rat)
+    (items : List (Sym × Sym × Int)) (q : Qty) :
+    (obtainQuantityC db unit category (.str cap f) = .ok q → q.caption = cap)
+    ∧ (obtainQuantityC db unit category .none = .ok q → q.caption = 0)
+    ∧ (obtainDict db items (.str cap f) = .ok q → q.caption = cap)
+    ∧ (obtainDict db items .none = .ok q → q.caption = 0)
+    ∧ (unknownQuantity db (.str cap f) = .ok q → q.caption = cap)
+    ∧ (unknownQuantity db .none = .ok q → q.caption = 0) := by
+  refine ⟨fun h => ?_, fun h => ?_, fun h => ?_, fun h => ?_, fun h => ?_, fun h => ?_⟩
+  · have := obtainQuantityC_caption h; simp only [capOf, Except.ok.injEq] at this; exact this.symm
+  · have := obtainQuantityC_caption h; simp only [capOf, Except.ok.injEq] at this; exact this.symm
+  · have := obtainDict_caption h; simp only [capOf, Except.ok.injEq] at this; exact this.symm
+  · have := obtainDict_caption h; simp only [capOf, Except.ok.injEq] at this; exact this.symm
+  · unfold unknownQuantity at h
+    by_cases hc : (Atom.str cap f).truthyStr = true
+    · rw [if_pos hc] at h
+      have := obtainQuantityC_caption h; simp only [capOf, Except.ok.injEq] at this; exact this.symm
+    · rw [if_neg hc] at h
+      have hc0 : cap = 0 := by simpa [Atom.truthyStr] using hc
+      have h' : obtainQuantityC db (.atom (.str unknownUnit none)) (.str unknownQType none) .none = .ok q := h
+      have := obtainQuantityC_caption h'; simp only [capOf, Except.ok.injEq] at this; rw [hc0]; exact this.symm
+  · unfold unknownQuantity at h
+    rw [if_neg (by simp [Atom.truthyStr])] at h
+    have h' : obtainQuantityC db (.atom (.str unknownUnit none)) (.str unknownQType none) .none = .ok q := h
+    have := obtainQuantityC_caption h'; simp only [capOf, Except.ok.injEq] at this; exact this.symm
+
+/-- **all quantity-first forms build one object on a quantity with a caption (or a derived, or the empty
+one), and it equals itself**: Scalar and FractionScalar from a number, Array and FixedArray from a
+container -/
+theorem quantity_first_forms_equal (db : Db) (q : Qty) (kw : Bool) :
+    (∀ (v : Rat) (i : Bool),
+        construct db .scalar (.qty q) (.atom (.num v i)) .none = .ok ⟨q, .scalar v⟩
+        ∧ createWithQuantity db .scalar q (.atom (.num v i)) kw none = .ok ⟨q, .scalar v⟩
+        ∧ construct db .fraction (.qty q) (.atom (.num v i)) .none = .ok ⟨q, .fraction v 0⟩
+        ∧ createWithQuantity db .fraction q (.atom (.num v i)) kw none = .ok ⟨q, .fraction v 0⟩
+        ∧ Obj.eq ⟨q, .scalar v⟩ ⟨q, .scalar v⟩ = .ok true
+        ∧ Obj.eq ⟨q, .fraction v 0⟩ ⟨q, .fraction v 0⟩ = .ok true)
+    ∧ (∀ (k : SeqKind) (items : List Atom),
+        construct db .array (.qty q) (.seq k items) .none = .ok ⟨q, .arr (.seq k items)⟩
+        ∧ createWithQuantity db .array q (.seq k items) kw none = .ok ⟨q, .arr (.seq k items)⟩
+        ∧ Obj.eq ⟨q, .arr (.seq k items)⟩ ⟨q, .arr (.seq k items)⟩ = .ok true
+        ∧ (2 ≤ items.length → ∀ d' : Int,
+            construct db (.fixed items.length) (.qty q) (.seq k items) .none = .ok ⟨q, .fixed (.seq k items) items.length⟩
+            ∧ createWithQuantity db (.fixed d') q (.seq k items) kw none = .ok ⟨q, .fixed (.seq k items) items.length⟩
+            ∧ createWithQuantity db (.fixed d') q (.seq k items) kw (some items.length)
+                = .ok ⟨q, .fixed (.seq k items) items.length⟩
+            ∧ Obj.eq ⟨q, .fixed (.seq k items) items.length⟩ ⟨q, .fixed (.seq k items) items.length⟩ = .ok true)) := by
+  have hb := create_builds db q
+  constructor
+  · intro v i
+    have hq := quantity_first_agrees db q (.atom (.num v i)) kw rfl
+    exact ⟨(hq.1 .scalar).trans (hb.1 v i), hq.2.1.trans (hb.1 v i), (hq.1 .fraction).trans (hb.2.1 v i),
+      hq.2.2.1.trans (hb.2.1 v i), (eq_self q).1 v, (eq_self q).2.1 v 0⟩
+  · intro k items
+    have hq := quantity_first_agrees db q (.seq k items) kw rfl
+    have ha := hb.2.2.2.1 (.seq k items) rfl
+    refine ⟨(hq.1 .array).trans ha, hq.2.2.2.1.trans ha, (eq_self q).2.2.1 k items, fun hd d' => ?_⟩
+    have hl : pyLen (.seq k items) = .ok (items.length : Int) := rfl
+    have hf := hb.2.2.2.2 (.seq k items) items.length rfl (by omega) hl
+    exact ⟨(hq.1 _).trans hf, (hq.2.2.2.2.2 _ d' hl).trans hf, (hq.2.2.2.2.1 _ d').trans hf,
+      (eq_self q).2.2.2 k items _⟩
+
+/-- **`ObtainQuantity([(unit, exponent), …], [category, …], caption)` is the dict form of the zipped
+lists**, except for one pair with exponent 1, which is the simple quantity of `category[0]`; either
+way the quantity carries the caption -/
+theorem pairs_form_agrees (db : Db) (pairs : List (Sym × Int)) (cats : List Sym) (cap : Atom) (q : Qty) :
+    ((∀ u, pairs ≠ [(u, 1)]) → obtainPairs db pairs cats cap = obtainDict db (odictZip cats pairs) cap)
+    ∧ (∀ u c rest, obtainPairs db [(u, 1)] (c :: rest) cap = newQuantityC db (.str c none) u cap)
+    ∧ (obtainPairs db pairs cats cap = .ok q → capOf cap = .ok q.caption) := by
+  refine ⟨fun h => ?_, fun u c rest => rfl, fun h => ?_⟩
+  · unfold obtainPairs
+    split
+    · rename_i u e
+      split
+      · rename_i he
+        have : e = 1 := by simpa using he
+        exact absurd (this ▸ rfl) (h u)
+      · rfl
+    · rfl
+  · unfold obtainPairs at h
+    split at h
+    · split at h
+      · split at h
+        · exact newQuantityC_caption h
+        · cases h
+      · exact obtainDict_caption h
+    · exact obtainDict_caption h
+
+/-- **the legacy constructor `Quantity(c, u, caption)` builds the quantity `ObtainQuantity(u, c, caption)`
+returns** (for a string unit and a named category), and `Quantity(c, None, caption)` the one of the
+category's default unit; both carry the caption -/
+theorem legacy_constructor_agrees (db : Db) (c u : Sym) (f g : Option Rat) (cap : Atom) (ci : CatRow) (q : Qty) :
+    quantityInit db (.str c f) (.str u g) cap = obtainQuantityC db (.atom (.str u g)) (.str c f) cap
+    ∧ (db.catByName c = some ci → capOf cap ≠ .error .assertion →
+        quantityInit db (.str c f) .none cap = obtainQuantityC db (.atom .none) (.str c f) cap)
+    ∧ (quantityInit db (.str c f) (.str u g) cap = .ok q → capOf cap = .ok q.caption) := by
+  have h0 : quantityInit db (.str c f) (.str u g) cap = newQuantityC db (.str c f) u cap := rfl
+  refine ⟨rfl, fun hci hcap => ?_, fun h => newQuantityC_caption (h0 ▸ h)⟩
+  cases hc : capOf cap with
+  | error e => cases cap <;> simp_all [capOf]
+  | ok cp => simp [quantityInit, obtainQuantityC, obtainAtomC, obtainNonStrC, getCategoryInfo, hci, hc, Atom.isNone]
+
+/-- **the value given twice** — positionally and as `value=` — is refused by `Array.CreateWithQuantity`
+and `FixedArray.CreateWithQuantity` ("Duplicated values parameter given") and is a `TypeError` for
+Scalar and FractionScalar; `value=None` next to the positional value is as if it was not given -/
+theorem duplicated_values_rejected (db : Db) (q : Qty) (x : PyVal) (a : Atom) (dimKw : Option Int) (d : Int)
+    (hx : x.isNone = false) :
+    (a.isNone = false →
+        createWithQuantityBoth .array q x a none = .error .value
+        ∧ createWithQuantityBoth (.fixed d) q x a dimKw = .error .value)
+    ∧ createWithQuantityBoth .array q x .none none = createWithQuantity db .array q x false none
+    ∧ createWithQuantityBoth (.fixed d) q x .none dimKw = createWithQuantity db (.fixed d) q x false dimKw
+    ∧ createWithQuantityBoth .scalar q x a dimKw = .error .type
+    ∧ createWithQuantityBoth .fraction q x a dimKw = .error .type := by
+  refine ⟨fun ha => ?_, rfl, rfl, rfl, rfl⟩
+  have hn : (PyVal.atom a).isNone = false := by cases a <;> simp_all [PyVal.isNone, Atom.isNone]
+  simp [createWithQuantityBoth, arrayInternal, fixedInternal, pickValues, hx, hn]
+
+/-- **`eval(repr(s)) == s` does NOT hold for a Scalar whose simple quantity carries an unknown-unit
+caption** (the code as it is): the printed text shows value, unit and category only, so the Scalar read
+back has the caption `""` and `==` tells the two apart.  `repr_roundtrip` is about quantities
+`Quantity(c, u)` builds, which have no caption. -/
+theorem repr_forgets_caption {db : Db} {c u cap : Sym} {f g : Option Rat} {q : Qty} (v : Rat)
+    (hq : newQuantityC db (.str c f) u (.str cap g) = .ok q) (hcap : cap ≠ 0)
+    (hu : litOk q.unit = true) (hc : litOk q.cat = true) :
+    reprBack db ⟨q, .scalar v⟩ = some (.ok ⟨q.withCaption 0, .scalar v⟩)
+    ∧ Obj.eq ⟨q.withCaption 0, .scalar v⟩ ⟨q, .scalar v⟩ = .ok false := by
+  rw [newQuantityC_eq db _ u _ cap rfl] at hq
+  cases hq0 : newQuantity db (.str c f) u with
+  | error e => rw [hq0] at hq; cases hq
+  | ok q0 =>
+    rw [hq0] at hq
+    simp only [Except.ok.injEq] at hq
+    subst hq
+    have hs := newQuantity_simple hq0
+    have hcap0 : q0.caption = 0 := by
+      have := newQuantityC_caption (cap := .none) hq0; simp only [capOf, Except.ok.injEq] at this; exact this.symm
+    have hw : (q0.withCaption cap).withCaption 0 = q0 := by
+      cases q0; simp_all [Qty.withCaption]
+    rw [hw]
+    have hrt := repr_roundtrip (db := db) v hq0 hu hc
+    constructor
+    · have h1 : reprBack db ⟨q0.withCaption cap, .scalar v⟩ = reprBack db ⟨q0, .scalar v⟩ := by
+        cases q0; rfl
+      rw [h1]; exact hrt.1
+    ·       simp [Obj.eq, Qty.pyEq, Qty.withCaption, Qty.items, hcap0, Ne.symm hcap]
+/-! ### every reachable state of a private database -/
+
+/-- **questions, failed constructions and constructions never change the database**: the state a
+history reaches is the state its registrations alone reach -/
+theorem history_state_is_its_registrations (lg : List (Sym × Sym)) (r : Reg.Registry) (ops : List HOp) :
+    hrun lg r ops = Reg.run lg r (regsOf ops) := hrun_eq_run lg ops r
+
+/-- **every answer is a function of the current registry only**: after any history, `GetDefaultCategory(u)`
+and every construction call give what they give on the database built by the registrations of that
+history alone — whatever was asked, tried or built before (no memory of earlier questions) -/
+theorem history_answers_from_registry (lg : List (Sym × Sym)) (r : Reg.Registry) (ops : List HOp) (u : Sym)
+    (cs : List Call) :
+    houts lg r (ops ++ [.defcat u])
+      = houts lg r ops ++ [.defcat (getDefaultCategory (dbOf lg (Reg.run lg r (regsOf ops))) u)]
+    ∧ houts lg r (ops ++ [.calls cs])
+      = houts lg r ops ++ [.calls (cs.map (runCall (dbOf lg (Reg.run lg r (regsOf ops)))))] := by
+  constructor <;> rw [houts_append, hrun_eq_run] <;> rfl
+
+/-- two histories with the same registrations (in the same order) reach the same database, so any
+question or construction that follows gets the same answer in both -/
+theorem same_registrations_same_answers (lg : List (Sym × Sym)) (r : Reg.Registry) (ops ops' : List HOp) (q : HOp)
+    (h : regsOf ops = regsOf ops') :
+    hrun lg r ops = hrun lg r ops' ∧ (hstep lg (hrun lg r ops) q).2 = (hstep lg (hrun lg r ops') q).2 := by
+  have : hrun lg r ops = hrun lg r ops' := by rw [hrun_eq_run, hrun_eq_run, h]
+  exact ⟨this, by rw [this]⟩
+
+/-- **a category registered late is found**: once `AddCategory(c, …)` has been accepted, a registered
+unit whose row has no `default_category` entry and whose quantity type is named `c` has default
+category `c` — whatever the answer was before the registration -/
+theorem default_category_after_registration (lg : List (Sym × Sym)) (r r' : Reg.Registry) (a : Reg.CatArgs)
+    (ci : CatRow) (u : Sym) (w : UnitRow)
+    (hreg : Reg.addCategory lg r a = (r', .ok ci))
+    (hu : (dbOf lg r).unitBySym u = some w) (hd : w.defaultCat = 0) (hn : w.qtype = ci.name) :
+    getDefaultCategory (dbOf lg r') u = .ok (some ci.name) := by
+  have hr' : r'.types = r.types ∧ r'.cats = Reg.catSet r.cats ci := by
+    simp only [Reg.addCategory] at hreg
+    split at hreg
+    · cases hreg
+    · cases hreg
+    · split at hreg
+      · cases hreg
+      · split at hreg
+        · cases hreg
+        · split at hreg
+          · cases hreg
+          · split at hreg
+            · cases hreg
+            · split at hreg
+              · cases hreg
+              · split at hreg
+                · cases hreg
+                · simp only [Prod.mk.injEq, Except.ok.injEq] at hreg
+                  obtain ⟨h1, h2⟩ := hreg
+                  subst h1; subst h2; exact ⟨rfl, rfl⟩
+  have hu' : (dbOf lg r').unitBySym u = some w := by
+    simp only [dbOf, Db.unitBySym, Reg.Registry.allRows, hr'.1] at hu ⊢; exact hu
+  have hc : (dbOf lg r').catByName w.qtype = some ci := by
+    simp only [dbOf, Db.catByName, hr'.2, hn]; exact catGet_catSet ci r.cats
+  rw [hn] at hc
+  simp [getDefaultCategory, defaultCategoryRow, hu', rowDefaultCategory, hd, hc, hn]
+
+/-- **a unit registered late is found**: `AddUnit(qt, name, u, …)` (no `default_category`) accepted on a
+database that did not know `u` and has a category named `qt`: from then on the default category of `u`
+is `qt` — whatever `GetDefaultCategory(u)` answered before -/
+theorem default_category_after_unit_registration (lg : List (Sym × Sym)) (r r' : Reg.Registry)
+    (qt name u : Sym) (fb tb : Reg.Formula) (ci : CatRow)
+    (hreg : Reg.addUnit r (.str qt) name (.str u) fb tb 0 = (r', .ok ()))
+    (hnew : (dbOf lg r).unitBySym u = none) (hc : (dbOf lg r).catByName qt = some ci) :
+    getDefaultCategory (dbOf lg r') u = .ok (some qt) := by
+  simp only [Reg.addUnit, Reg.addInfo] at hreg
+  split at hreg
+  · cases hreg
+  · rename_i info hmk
+    split at hreg
+    · cases hreg
+    · split at hreg
+      · cases hreg
+      · simp only [Prod.mk.injEq, and_true] at hreg
+        subst hreg
+        have hinfo : info.qtype = qt ∧ info.sym = u ∧ info.defaultCat = 0 := by
+          unfold Reg.mkInfo at hmk
+          split at hmk
+          · cases hmk
+          · split at hmk
+            · cases hmk
+            · cases hmk; exact ⟨rfl, rfl, rfl⟩
+        have hu' : (dbOf lg ⟨Reg.tlModify (· ++ [info]) (Reg.tlSetDefault r.types qt) qt,
+            r.index ++ [(u, info)], r.cats⟩).unitBySym u = some info := by
+          simp only [dbOf, Db.unitBySym, Reg.Registry.allRows] at hnew ⊢
+          exact find_after_append _ info qt (by simp [hinfo.2.1]) r.types hnew
+        have hc' : (dbOf lg ⟨Reg.tlModify (· ++ [info]) (Reg.tlSetDefault r.types qt) qt,
+            r.index ++ [(u, info)], r.cats⟩).catByName qt = some ci := hc
+        simp [getDefaultCategory, defaultCategoryRow, hu', rowDefaultCategory, hinfo.2.2, hinfo.1, hc']
+/-- **the forms agree in every reachable state**: after ANY history of registrations, questions and
+(failed) constructions on a private database, if the registry now gives the unit `u` the default
+category `c` and `Quantity(c, u)` exists, all Scalar forms build one object for every number (the
+same holds for the other classes: the theorems above are stated for every database) -/
+theorem forms_equal_in_every_reachable_state (lg : List (Sym × Sym)) (r : Reg.Registry) (ops : List HOp)
+    {c u : Sym} {q : Qty} (f g : Option Rat) (v : Rat) (i kw : Bool) :
+    let db := dbOf lg (Reg.run lg r (regsOf ops))
+    getDefaultCategory db u = .ok (some c) → c ≠ 0 → newQuantity db (.str c none) u = .ok q →
+    let dbh := dbOf lg (hrun lg r ops)
+    let o : Obj := ⟨q, .scalar v⟩
+    construct dbh .scalar (.atom (.num v i)) (.atom (.str u g)) .none = .ok o
+    ∧ construct dbh .scalar (.atom (.num v i)) (.atom (.str u g)) (.str c f) = .ok o
+    ∧ construct dbh .scalar (.atom (.str c f)) (.atom (.num v i)) (.str u g) = .ok o
+    ∧ construct dbh .scalar (.seq .tuple [.num v i, .str u g]) .none .none = .ok o
+    ∧ obtainQuantity dbh (.atom (.str u g)) (.str c f) = .ok q
+    ∧ construct dbh .scalar (.qty q) (.atom (.num v i)) .none = .ok o
+    ∧ createWithQuantity dbh .scalar q (.atom (.num v i)) kw none = .ok o
+    ∧ Obj.eq o o = .ok true := by
+  intro db hc hc0 hq dbh o
+  have : dbh = db := by simp only [dbh, db, hrun_eq_run]
+  rw [this]
+  exact scalar_forms_equal f g v i kw hc hc0 hq
 
 /-! ### non-vacuity: concrete instances on the default database -/
 
